@@ -149,7 +149,8 @@ CHECKS.update({
              "every list of <= 3 (thorough <= 4) records whose x lies on every bin edge, edge +- size/2, edge +- 1 ulp, far outside, 0, -0, +-2^62..2^70, +-1e30, "
              "+-MaxFloat64 (weights 1, 0.5, -2), in one and two dimensions (all 45x45 axis pairs for single records), evaluated through value.New().Generate on the "
              "real binning/binning2d/collectBinning and compared with a reference histogram, the exact weight sum and the exact interval description of every bin. "
-             "Additivity is checked for every list against every splitting into 1 part, 2 parts (all subsets) and 3 contiguous parts, empty parts included. "
+             "Additivity is checked for every list against every splitting into 1 part, 2 parts (all subsets) and 3 contiguous parts, empty parts included, "
+             "collecting twice from the same part binnings (collecting must not change its parts). "
              "Exhaustive within these bounds (4.3 M cases quick, about 115 M thorough).",
         note="Trusted: the reference bin index (comparisons of x with edges start+k*size computed with big.Rat and asserted exactly representable), Go float64 "
              "addition of dyadic weights. +-1-ulp neighbours of an edge are judged only when (x-start)/size is exact in float64 (others counted in "
@@ -334,13 +335,15 @@ CHECKS.update({
         text="Explicit-state breadth-first search over evaluation histories executed on the real objects: 194 programs enumerated from templates (lazy constants indexed at "
              "run time, short-cut readers chosen at run time, appends to constants, constant maps, closures capturing the argument and returned unconsumed, lazy results "
              "forced later / half / never, failures at every let/argument depth, try/catch, recursion, multiUse, all-constant programs, host constants, static functions "
-             "compiled from strings, nested evaluation) in 837 (thorough about 1500) configurations on one value.New() generator each - every program alone, through "
+             "compiled from strings, nested evaluation) plus the product of 27 kinds of constant list x 41 run-time consumers (1107 programs), in about 1950 (thorough about "
+             "2600) configurations on one value.New() generator each - every program alone, through "
              "Generate / GenerateWithMap / CreateAst+GenerateFunc, with Func.Eval and with one caller-owned stack, with Generate calls in between, and in pairs. "
              "Transitions are Eval(f,arg) over a pool of 5 arguments with the result consumed fully / first element only / not at all / later, consumption of kept "
              "handles, and Generate on the used generator. Every outcome is compared with the same call as the first evaluation on a fresh generator. States are "
-             "deduplicated on the hidden state of every folded constant list, the optimizer stack, pending handles and stack residue. Quick: 82 927 states, 1 461 545 "
-             "transitions, all executed on the implementation; fixpoint reached in 740 of 837 configurations (depth 3-7), the rest completed at depth 4-6; plus 333 "
-             "plain 50-step histories.",
+             "deduplicated on the hidden state of every folded constant list, the optimizer stack, pending handles and stack residue, except that ALL histories "
+             "of length <= 2 are executed without merging (state captured by Go closures is invisible to the key). Quick: about 95 000 states and 2.2 M transitions, "
+             "all executed on the implementation; the evidence lists the depths at which key fixpoints were reached and which configurations ended at their depth "
+             "cap; plus one to three plain 50-step histories per configuration.",
         note="Differential oracle: the reference is the implementation itself on a fresh generator, so a result that is wrong already on the first evaluation is C01/C07's "
              "subject. Error texts are not compared. The fixpoint argument trusts that the key contains every field the list code reads (overlay accessors plus "
              "reflection over all other List fields) and 128-bit key hashes. Pairs, generate-in-between and host configurations are depth-bounded. Lists have fewer "
